@@ -47,3 +47,13 @@ CASES += [
     _div10_case('c13-div10-by-inexact-reciprocal', '0x66666667UL', 34, 'P2'),
     _div10_case('c13-eq-div10-by-exact-reciprocal', '0xCCCCCCCDUL', 35, None),
 ]
+
+G64 = 'src/library/format/detail/grouped_int64_to_string.cpp'
+CASES += [
+    dict(id='c13-eq-grouped-length-table', prop='C13', expect=None,
+         edits=[(G64, "} // checkAddGroupChar\n", "} // checkAddGroupChar\n\n\ninline uint8_t groupedLength( uint8_t num_digits)\n{\n   static const uint8_t  grouped_len[] = { 0, 1, 2, 3, 5, 6, 7, 9, 10, 11,\n      13, 14, 15, 17, 18, 19, 21, 22, 23, 25, 26 };\n   return grouped_len[ num_digits];\n}\n"),
+                (G64, "   const uint8_t  grouped_result_len = result_len + (result_len - 1) / 3;", "   const uint8_t  grouped_result_len = groupedLength( result_len);", 4)]),
+    dict(id='c13-grouped-length-table-wrong-entry', prop='C13', expect='P2',
+         edits=[(G64, "} // checkAddGroupChar\n", "} // checkAddGroupChar\n\n\ninline uint8_t groupedLength( uint8_t num_digits)\n{\n   static const uint8_t  grouped_len[] = { 0, 1, 2, 3, 5, 6, 7, 9, 10, 11,\n      13, 14, 15, 17, 18, 19, 21, 23, 23, 25, 26 };\n   return grouped_len[ num_digits];\n}\n"),
+                (G64, "   const uint8_t  grouped_result_len = result_len + (result_len - 1) / 3;", "   const uint8_t  grouped_result_len = groupedLength( result_len);", 4)]),
+]
